@@ -190,6 +190,13 @@ pub fn run_seed(seed: u64, prop: &str, tier: Tier, i: usize) -> u64 {
 
 static WATCH: Mutex<BTreeMap<u64, (Instant, usize)>> = Mutex::new(BTreeMap::new());
 static WATCH_ID: AtomicU64 = AtomicU64::new(1);
+/// Extra allowance for the op in flight on this thread: one second per 2 MiB of data in the world
+/// (a 512 MiB message is hashed several times by library and reference; that is not a hang).
+static EXTRA: Mutex<BTreeMap<u64, u64>> = Mutex::new(BTreeMap::new());
+pub fn set_allowance(extra_secs: u64) {
+    let id = MY_WATCH_ID.with(|i| *i);
+    EXTRA.lock().unwrap().insert(id, extra_secs);
+}
 thread_local! {
     static MY_WATCH_ID: u64 = WATCH_ID.fetch_add(1, Ordering::Relaxed);
     static CUR_RUN: std::cell::Cell<usize> = std::cell::Cell::new(usize::MAX);
@@ -246,8 +253,9 @@ pub fn journal_done() {
 /// Returns the run index of an op that has been in flight for longer than HANG_SECS, if any.
 pub fn stuck_run() -> Option<usize> {
     let g = WATCH.lock().unwrap();
-    for (_, (t, run)) in g.iter() {
-        if t.elapsed() > Duration::from_secs(HANG_SECS) {
+    let extra = EXTRA.lock().unwrap();
+    for (id, (t, run)) in g.iter() {
+        if t.elapsed() > Duration::from_secs(HANG_SECS + extra.get(id).copied().unwrap_or(0)) {
             return Some(*run);
         }
     }
